@@ -14,8 +14,10 @@ from pathlib import Path
 VERIF = Path("/verif")
 REPO = Path(os.environ.get("VERIF_REPO", "/repo"))  # VERIF_REPO: evaluate a scratch worktree (seeded changes) without touching /repo
 WORK = VERIF / ".work"
-EVID = VERIF / "evidence"
-REPLAYS = VERIF / "replays"
+# VERIF_OUT: write evidence/replays elsewhere (seed sweeps, background runs) so that /verif/evidence only ever holds runs on /repo itself
+_OUT = Path(os.environ["VERIF_OUT"]) if os.environ.get("VERIF_OUT") else VERIF
+EVID = _OUT / "evidence"
+REPLAYS = _OUT / "replays"
 KNOWN = VERIF / "known_findings.json"
 
 EXIT_OK, EXIT_VIOLATION, EXIT_HARNESS = 0, 1, 3
